@@ -285,9 +285,9 @@ class LArr:
 
     def __setitem__(self, key, value):
         plan = self._plan(key)
-        if any(p[0] in ("lst", "new") for p in plan):
-            raise Unsupported("LArr assignment through an index list")
-        region_shape = [p[4] for p in plan if p[0] == "sl"]
+        if any(p[0] == "new" for p in plan):
+            raise Unsupported("LArr assignment through a new axis")
+        region_shape = [p[4] if p[0] == "sl" else len(p[2]) for p in plan if p[0] in ("sl", "lst")]
         if isinstance(value, (LArr, np.ndarray)):
             v = value if isinstance(value, LArr) else LArr.from_array(value)
             vshape = list(v.shape)
@@ -328,6 +328,16 @@ class LArr:
             for p in plan:
                 if p[0] == "fix":
                     cond = and_(cond, core.eq(idx[p[1]], p[2]))
+                elif p[0] == "lst":
+                    # column scatter: the LAST occurrence of an index wins, like NumPy
+                    i = idx[p[1]]
+                    hit, pos = False, 0
+                    for q, v in enumerate(p[2]):
+                        h = core.eq(i, v)
+                        pos = ite(h, q, pos)
+                        hit = or_(hit, h)
+                    cond = and_(cond, hit)
+                    ridx.append(pos)
                 else:
                     _, src, start, step, length = p
                     i = idx[src]
@@ -347,7 +357,10 @@ class LArr:
             try:
                 params = []
                 for p in plan:
-                    params.extend([p[2]] if p[0] == "fix" else [p[2], p[4]])
+                    if p[0] == "lst":
+                        params.extend(list(p[2]))
+                    else:
+                        params.extend([p[2]] if p[0] == "fix" else [p[2], p[4]])
                 if vaid is not None:
                     self._aid = op_aid("set", self._aid, vaid, *params)
                 elif isinstance(value, (builtins.int, builtins.float)):
@@ -706,3 +719,25 @@ FUNCTIONS[np.take] = take
 FUNCTIONS[np.conj] = lambda a: a._unary(arrays.UFUNC_TABLE[np.conjugate], "conj")
 FUNCTIONS[np.conjugate] = FUNCTIONS[np.conj]
 NPL.arange = arange
+
+
+def array_equal(a, b, equal_nan=False):
+    """np.array_equal on lazy arrays: a universally quantified statement, decided (and forked) by the solver"""
+    a = a if isinstance(a, LArr) else LArr.from_array(np.asarray(a))
+    b = b if isinstance(b, LArr) else LArr.from_array(np.asarray(b))
+    if a.ndim != b.ndim:
+        return False
+    for x, y in zip(a.shape, b.shape):
+        if not builtins.bool(_dim_eq(x, y)):
+            return False
+    c = cur()
+    idx = [z3.Int(c._name("ae")) for _ in range(a.ndim)]
+    rng = z3.And(*[z3.And(i >= 0, i < _int_term(n)) for i, n in zip(idx, a.shape)])
+    same = core._b(core.eq(a.fn(*[SInt(i) for i in idx]), b.fn(*[SInt(i) for i in idx])))
+    if same is True:
+        return True
+    body = z3.Implies(rng, core._bt(same))
+    return core.SBool(z3.ForAll(idx, body))
+
+
+FUNCTIONS[np.array_equal] = array_equal
